@@ -186,3 +186,40 @@ Definition gen_update (self : pyindex) (u_items : pydict nat nat) : pyindex :=
   let self := gen__update_fields self u_items in
   self.
 
+(* methods that read the object and return a value *)
+Definition gen___len__ (self : pyindex) : nat :=
+  (_num_items self).
+
+Definition gen_valid (self : pyindex) : bool :=
+  (_valid self).
+
+Definition gen_get_measurements (self : pyindex) : list str :=
+  (map fst (_measurements self)).
+
+Definition gen_get_timestamps (self : pyindex) (measurement : option str) : list Z :=
+  if (negb (opt_truthy measurement))
+  then (let zipped := (map (fun '(i, j) => (i, j)) (combine (_timestamps self) (_storage_pos_sorted_by_ts self))) in
+  (map (fun i => (fst i)) (sort_by_second zipped)))
+  else (if (negb (d_has (opt_str measurement) (_measurements self)))
+  then ([])
+  else (let zipped := (map (fun '(i, j) => (i, j)) (filter (fun '(i, j) => (mem j (d_get [] (opt_str measurement) (_measurements self)))) (combine (_timestamps self) (_storage_pos_sorted_by_ts self)))) in
+  (map (fun i => (fst i)) (sort_by_second zipped)))).
+
+Definition gen_get_field_values (self : pyindex) (field_key : str) (measurement : option str) : list (option num) :=
+  if (negb (opt_truthy measurement))
+  then (if (d_has field_key (_fields self))
+  then (let field_values := (map (fun i => (snd i)) (d_get [] field_key (_fields self))) in
+  field_values)
+  else ([]))
+  else (let rst := [] in
+  if (negb (d_has (opt_str measurement) (_measurements self)))
+  then (rst)
+  else (let measurement_items := (d_get [] (opt_str measurement) (_measurements self)) in
+  let rst := fold_left (fun rst '(fk, items) =>
+    if (negb (pyeq fk field_key))
+  then (rst)
+  else (let rst := (rst ++ (map (fun i => (snd i)) (filter (fun i => (mem (fst i) measurement_items)) items))) in
+  rst))
+    (_fields self) rst in
+  rst)).
+
